@@ -63,7 +63,8 @@ func (r *Registry) Add(soyfile *ast.SoyFileNode) error {
 		// Extract leading Header Params from the template body.
 		// Add them to Soy.Params for backwards compatibility.
 		var headerParams []*ast.HeaderParamNode
-		for _, n := range tn.Body.Nodes {
+		var lead = 0 // the leading body nodes that make up the header params
+		for i, n := range tn.Body.Nodes {
 			if param, ok := n.(*ast.HeaderParamNode); ok {
 
 				headerParams = append(headerParams, param)
@@ -72,6 +73,9 @@ func (r *Registry) Add(soyfile *ast.SoyFileNode) error {
 					Name:     param.Name,
 					Optional: param.Optional,
 				})
+				lead = i + 1
+			} else if text, ok := n.(*ast.RawTextNode); ok && strings.Trim(string(text.Text), " \t\r\n") == "" {
+				// blanks between two header params on one line are not template text.
 			} else {
 				break
 			}
@@ -79,7 +83,7 @@ func (r *Registry) Add(soyfile *ast.SoyFileNode) error {
 		if len(headerParams) > 0 && hasSoyDocParams {
 			return fmt.Errorf("template may not have both soydoc and header params specified")
 		}
-		tn.Body.Nodes = tn.Body.Nodes[len(headerParams):]
+		tn.Body.Nodes = tn.Body.Nodes[lead:]
 
 		if _, ok := r.sourceByTemplateName[tn.Name]; ok {
 			return fmt.Errorf("template %v is defined more than once", tn.Name)
